@@ -199,4 +199,28 @@ CLAIMS['C16'] = {
             'OpenAPI._extract_errors (its own defaultdict holds its own lists) is assumed; schema extractors are abstract '
             'user objects (A-user)',
 }
-NOT_CLAIMED = {}
+CLAIMS['C14'] = {
+    'text': 'Schema validator (JsonSchemaValidator.validate_method) and the base validator it builds on, proved: a call is '
+            'accepted iff its params bind to the signature without the excluded names (C04 contract) AND the bound arguments '
+            'satisfy the schema (jsonschema.validate: assumed, uninterpreted schema_ok over the CONTENT of the instance, the '
+            'default and the per-method keyword arguments, per-method ones overriding); otherwise only ValidationError '
+            'escapes, carrying exactly one string (JSON-encodable), and nothing is executed; the accepted arguments are '
+            'returned unchanged in a new dict; excluded names are not among them.',
+    'note': 'NOT covered: PydanticValidator (type validator, coercion): its body is pydantic.create_model + model '
+            'instantiation - external semantics; moreover the pydantic installed in this sandbox rejects the call the '
+            'validator makes (model_config passed as a field: every validation ends in -32603; its tests are among the 44 '
+            'failing baseline tests), so nothing about it can even be replayed natively. jsonschema.validate and '
+            'BaseValidator.signature are assumed contracts (the latter with the bounded stand-in of C04)',
+}
+NOT_CLAIMED = {
+    'C17': 'no contract within reach decides it: the documented parameter lists are produced by pydantic (create_model / '
+           'model_json_schema) from _build_params_model, whose loop over inspect.Parameter objects needs a parameter-level '
+           'inspect model and a dict-building invariant with a quantifier alternation; the installed pydantic is also '
+           'incompatible with the validator side of the comparison (see C14). The binding side (which names bind, which are '
+           'required) is the assumed inspect model of C04, so the statement would relate two assumed external semantics.',
+    'C20': 'not built: PjRpcMocker keys its patches by (version, method) TUPLES in nested defaultdicts and records calls in '
+           'MagicMock objects; the heap model keys dicts by identity for references (no structural tuple keys) and has no '
+           'MagicMock model. _match_request would be the function to put under contract (round-robin as pop(0)/append on '
+           'the abstract sequence view). One suspect spotted by reading, not verified: `id or match.response_data[...]` '
+           'drops a request id of 0.',
+}
